@@ -14,7 +14,7 @@ import (
 type Expr interface{}
 
 type (
-	ELit   struct{ V string }   // integer literal
+	ELit   struct{ V string } // integer literal
 	EBool  struct{ V bool }
 	ENil   struct{}
 	EIdent struct{ Name string }
@@ -68,45 +68,46 @@ type Clause struct {
 }
 
 type FuncContract struct {
-	Name     string // e.g. (*Decimal).setExponent, NumDigits, math/big.(*Int).Add
-	Props    []string
-	Requires []*Clause
-	Ensures  []*Clause
-	Assigns  []Expr
-	HasAssigns bool
-	Nilable  map[string]bool
-	Fresh    bool   // result is a freshly allocated object
-	Trusted  bool   // body not verified
-	TrustWhy string
-	Layer1   bool
-	Invs     map[int][]*Clause // loop ordinal -> invariants
-	Decr     map[int]*Clause
-	LoopHints map[int][]*Clause
-	ErrExit   map[int]*Clause // loop ordinal -> ErrDecimal local that must be clean whenever the loop iterates again
-	Hints    []*Clause // ground lemma instances / extra facts to be proved then assumed at entry? (proved as obligations first)
-	Outs     []string  // destination parameters (for F2)
-	Operands []string
-	Defines  []Expr // leaves always defined by the function
-	NoBody   bool
+	Name         string // e.g. (*Decimal).setExponent, NumDigits, math/big.(*Int).Add
+	Props        []string
+	Requires     []*Clause
+	Sample       []*Clause // sampling restriction for run-time checking only
+	Ensures      []*Clause
+	Assigns      []Expr
+	HasAssigns   bool
+	Nilable      map[string]bool
+	Fresh        bool // result is a freshly allocated object
+	Trusted      bool // body not verified
+	TrustWhy     string
+	Layer1       bool
+	Invs         map[int][]*Clause // loop ordinal -> invariants
+	Decr         map[int]*Clause
+	LoopHints    map[int][]*Clause
+	ErrExit      map[int]*Clause // loop ordinal -> ErrDecimal local that must be clean whenever the loop iterates again
+	Hints        []*Clause       // ground lemma instances / extra facts to be proved then assumed at entry? (proved as obligations first)
+	Outs         []string        // destination parameters (for F2)
+	Operands     []string
+	Defines      []Expr // leaves always defined by the function
+	NoBody       bool
 	Delegate     string // callee the function must delegate to (class T)
 	DelegateArgs []Expr
-	Reveal   map[string]bool
-	Asserts  map[string][]*Clause // call site (callee#ordinal) -> ghost assertions proved, then assumed, just before the call
-	LocalAssume map[string]*Clause // assumptions on float-derived locals (listed in evidence)
-	Allocates bool
-	Exported  bool
-	Line     int
+	Reveal       map[string]bool
+	Asserts      map[string][]*Clause // call site (callee#ordinal) -> ghost assertions proved, then assumed, just before the call
+	LocalAssume  map[string]*Clause   // assumptions on float-derived locals (listed in evidence)
+	Allocates    bool
+	Exported     bool
+	Line         int
 }
 
 type Lemma struct {
-	Name   string
-	Params []MacroParam
-	Body   Expr
-	Tags   []string
+	Name    string
+	Params  []MacroParam
+	Body    Expr
+	Tags    []string
 	Assumed bool
-	Using  []Expr
-	Why    string
-	Src    string
+	Using   []Expr
+	Why     string
+	Src     string
 }
 
 type GlobalInv struct {
@@ -440,7 +441,7 @@ var clauseKW = map[string]bool{
 	"func": true, "requires": true, "ensures": true, "assigns": true, "nilable": true, "fresh": true,
 	"trusted": true, "layer": true, "loop": true, "props": true, "define": true, "lemma": true,
 	"global": true, "outs": true, "operands": true, "defines": true, "hint": true, "pure": true,
-	"allocates": true, "exported": true, "axiom": true, "local": true, "reveal": true, "assert": true, "using": true, "delegates": true,
+	"allocates": true, "sample": true, "exported": true, "axiom": true, "local": true, "reveal": true, "assert": true, "using": true, "delegates": true,
 }
 
 var tagRe = regexp.MustCompile(`^\{([A-Za-z0-9_,\- ]*)\}\s*`)
@@ -598,6 +599,9 @@ func ParseSpecFile(path string) (*Spec, error) {
 					cur.LocalAssume = map[string]*Clause{}
 				}
 				cur.LocalAssume[f[0]] = &Clause{Kind: "local-assume", E: mustExpr(ex, l.no), Src: ex, Name: why}
+			case "sample":
+				// restricts the inputs of the run-time check / witness search only (never used by a proof)
+				cur.Sample = append(cur.Sample, &Clause{Kind: "sample", E: mustExpr(rest, l.no), Src: rest})
 			case "fresh":
 				cur.Fresh = true
 			case "allocates":
